@@ -54,9 +54,15 @@ def nomut_scan(m: Model, modules, c, rule="R05-NOMUT", canary=False):
             raise AnalysisError(f"flow analysis did not terminate on {m.qualname(fd)}")
         qn = m.qualname(fd).replace("pytato.", "", 1)
         muts = []
+        # the hash object handed to a key updater is an accumulator by contract
+        # (pytools: update_for_<type>(key_hash, key) / update_persistent_hash(
+        # key_hash, key_builder)): feeding it is not a mutation of an input
+        accum = set()
+        if fd.name.startswith("update_for_") or fd.name == "update_persistent_hash":
+            accum = {f"${params[0]}"} if params else set()
         for e in s.muts:
             real = frozenset(x for x in e.value if not x[0].startswith("~")
-                             and x[0] != "__mapper__")
+                             and x[0] != "__mapper__" and x[0] not in accum)
             if real:
                 e.value = real
                 muts.append(e)
